@@ -298,9 +298,9 @@ def classify(h, rc, timed_out, text):
     res = {"harness": h.name, "status": None, "reason": "", "stats": p["stats"],
            "checks_total": 0, "checks_success": 0, "failed": [], "covers_sat": 0, "covers_total": 0}
     if timed_out:
-        res.update(status="inconclusive", reason="wall-clock cap %ds reached" % h.timeout)
+        res.update(status="inconclusive", reason="wall-clock cap %ds reached" % getattr(h, "effective_timeout", h.timeout))
         return res
-    oom = re.search(r"^Out of memory|std::bad_alloc|Cannot allocate memory|memory allocation of \d+ bytes failed|appears to have run out of memory", text, re.M)
+    oom = re.search(r"^Out of memory|std::bad_alloc|Cannot allocate memory|memory allocation of \d+ bytes failed|appears to have run out of memory|ran out of memory", text, re.M)
     if oom or re.search(r"CBMC failed with status|^CBMC failed$", text, re.M):
         res.update(status="inconclusive", reason=("memory cap %dGB reached" % h.mem) if oom else "CBMC aborted")
         return res
@@ -309,6 +309,10 @@ def classify(h, rc, timed_out, text):
             res.update(status="broken", reason="does not compile: " + " | ".join(p["errors"][:3]))
         else:
             res.update(status="inconclusive", reason="no verdict (rc=%s): %s" % (rc, text[-300:].replace("\n", " / ")))
+        return res
+    if any(c["status"] == "ERROR" for c in p["checks"]):
+        # CBMC reports every check as ERROR when the back end gave up (out of memory, solver failure)
+        res.update(status="inconclusive", reason="CBMC could not decide the checks (Status: ERROR)")
         return res
     covers = [c for c in p["checks"] if ".cover." in c["name"] or c["status"] in ("SATISFIED", "UNSATISFIABLE")]
     props = [c for c in p["checks"] if c not in covers]
@@ -394,8 +398,18 @@ def resolve_unwindset(h, ws, tgt, logdir):
     return pairs
 
 
+DEADLINE = [None]  # absolute time by which a quick-tier run stops starting / cuts harnesses
+
+
+def _blank(h, status, reason, logpath=""):
+    return {"harness": h.name, "status": status, "reason": reason, "stats": {}, "checks_total": 0, "checks_success": 0,
+            "failed": [], "covers_sat": 0, "covers_total": 0, "wall_s": 0, "log": logpath}
+
+
 def run_harness(h, ws, tgt, logdir):
     logpath = os.path.join(logdir, h.name + ".log")
+    if DEADLINE[0] is not None and DEADLINE[0] - time.time() < 30:
+        return _blank(h, "inconclusive", "quick-tier deadline reached before this harness could start", logpath)
     tgt = harness_target(h, tgt)
     extra = []
     if h.unwindset:
@@ -409,7 +423,11 @@ def run_harness(h, ws, tgt, logdir):
     if h.cbmc or extra:
         extra = ["--cbmc-args"] + h.cbmc + extra
     h.resolved_extra = extra  # also used when the harness is re-run for concrete playback
-    rc, to, wall = run_cmd(kani_cmd(h, tgt), ws, h.timeout, h.mem, logpath)
+    cap = h.timeout
+    if DEADLINE[0] is not None:
+        cap = max(10, min(cap, int(DEADLINE[0] - time.time())))
+    h.effective_timeout = cap
+    rc, to, wall = run_cmd(kani_cmd(h, tgt), ws, cap, h.mem, logpath)
     with open(logpath, errors="replace") as f:
         text = f.read()
     res = classify(h, rc, to, text)
@@ -485,7 +503,7 @@ def concrete_playback(h, ws, tgt, logdir, timeout):
     """re-run the failing harness with trace generation; kani adds the unit test in place."""
     logpath = os.path.join(logdir, h.name + ".playback-gen.log")
     cmd = kani_cmd(h, harness_target(h, tgt), ["-Z", "concrete-playback", "--concrete-playback=inplace"])
-    rc, to, wall = run_cmd(cmd, ws, timeout, h.mem + 4, logpath)
+    rc, to, wall = run_cmd(cmd, ws, timeout, min(48, 2 * h.mem + 8), logpath)  # trace generation needs more memory than the verdict
     src = os.path.join(ws, "verif_h", os.path.basename(h.file))
     text = open(src).read()
     # Kani inserts the unit test right after the harness function; for harnesses generated by a
@@ -625,7 +643,7 @@ def main(argv):
     ap.add_argument("property", nargs="?")
     ap.add_argument("--tier", default=os.environ.get("VERIF_TIER", "quick"), choices=["quick", "thorough"])
     ap.add_argument("--only", action="append")
-    ap.add_argument("--jobs", type=int, default=int(os.environ.get("VERIF_JOBS", "12")))
+    ap.add_argument("--jobs", type=int, default=int(os.environ.get("VERIF_JOBS", "14")))
     ap.add_argument("--keep", action="store_true")
     ap.add_argument("--replay")
     ap.add_argument("--list", action="store_true")
@@ -654,6 +672,10 @@ def main(argv):
     for h in hs:
         h.timeout = int(h.timeout * a.timeout_scale)
     t_start = time.time()
+    if a.tier == "quick" and not a.only:
+        # the quick command is meant to run on every change: everything still running when the deadline
+        # passes is cut and reported INCONCLUSIVE (never as a pass)
+        DEADLINE[0] = t_start + float(os.environ.get("VERIF_QUICK_DEADLINE", "760"))
     run_dir = os.path.join(SCRATCH_ROOT, "run-%s-%d" % (prop, os.getpid()))
     shutil.rmtree(run_dir, ignore_errors=True)
     os.makedirs(run_dir)
